@@ -274,6 +274,150 @@ def gen_large_scale(rng):
                 particles=[d], where="inside", large_scale=True)
 
 
+# ------------------------------------------------------------------ structured generators
+ZERO_LO = [-1.0, -2.5, -0.3, -0.7, -3.0, -1.1, -6.4]
+POS_HI = [1.0, 2.5, 0.3, 0.7, 3.0, 1.1, 6.4]
+
+
+def edge_axis(rng, n=None, kind=None):
+    """an axis whose edges sit at awkward places: exactly 0.0 (upper or lower), negative / positive / spanning extents"""
+    n = n or rng.randint(10, 26)
+    kind = kind or rng.choice(["upper0", "upper0", "lower0", "lower0", "neg", "pos", "span"])
+    if kind == "upper0":
+        return [rng.choice(ZERO_LO), 0.0, n]
+    if kind == "lower0":
+        return [0.0, rng.choice(POS_HI), n]
+    if kind == "neg":
+        hi = -rng.choice([0.1, 0.4, 1.3, 2.2])
+        return [hi - rng.choice(POS_HI), hi, n]
+    if kind == "pos":
+        lo = rng.choice([0.1, 0.4, 1.3, 2.2])
+        return [lo, lo + rng.choice(POS_HI), n]
+    return [rng.choice(ZERO_LO), rng.choice(POS_HI), n]
+
+
+def _blank_particle(rng, simple=False):
+    if simple:
+        return dict(E=1.0, mass=1.0, px=0.0, py=0.0, pz=0.0, charge=1, baryon_number=1, strangeness=0)
+    return dict(E=rng.choice([0.5, 1.0, 2.0, 7.0]), mass=rng.choice([0.138, 0.938, 1.0]),
+                px=rng.choice([0.0, rng.uniform(-2, 2)]), py=rng.choice([0.0, rng.uniform(-2, 2)]),
+                pz=rng.choice([0.0, rng.uniform(-2, 2)]), charge=rng.choice([-2, -1, 1, 2]),
+                baryon_number=rng.choice([-1, 1]), strangeness=rng.choice([-3, -1, 1, 2]))
+
+
+def _n_sigma_for(axes, nums, sigma):
+    """n_sigma per axis such that round(n_sigma*sigma/spacing) is the wanted half-width"""
+    out = []
+    for ax, num in zip(axes, nums):
+        h = (ax[1] - ax[0]) / (ax[2] - 1)
+        out.append((num if num > 0 else 0.2) * h / sigma)
+    return out
+
+
+def _prefill(rng, axes):
+    size = axes[0][2] * axes[1][2] * axes[2][2]
+    return [rng.choice([-2.0, -0.75, 0.5, 1.25, 3.0]) for _ in range(size)]
+
+
+def gen_edge_case(rng, axes=None, nums=None, ends=None, simple=False):
+    """supports that end EXACTLY on the lower / upper edge node of an axis: particles sit on (or next to)
+    node `num` / `n-1-num`, on lattices with an edge at 0.0 or at negative / positive extents, 10..26 nodes on one axis"""
+    if axes is None:
+        big = rng.randrange(3)
+        if rng.random() < 0.25:
+            n = rng.randint(10, 16)
+            a = edge_axis(rng, n)
+            axes = [list(a), list(a), list(a)]                   # cube, same awkward axis three times
+        else:
+            axes = [edge_axis(rng, None if k == big else rng.randint(3, 7)) for k in range(3)]
+    if nums is None:
+        nums = [rng.choice([0, 1, 1, 2]) for _ in range(3)]
+        nums = [min(num, (ax[2] - 1) // 2) for num, ax in zip(nums, axes)]
+        if max(nums) == 0:
+            nums[rng.randrange(3)] = 1
+    hs = [(ax[1] - ax[0]) / (ax[2] - 1) for ax in axes]
+    sigma = hs[0] * rng.choice([0.5, 1.0, 1.0, 2.0])
+    lat = dict(axes=axes, n_sigma=_n_sigma_for(axes, nums, sigma))
+    npart = 1 if simple else rng.choice([1, 1, 2, 3])
+    parts = []
+    for _ in range(npart):
+        d = _blank_particle(rng, simple)
+        for k, (name, ax, num) in enumerate(zip("xyz", axes, nums)):
+            end = ends[k] if ends else rng.choice(["lower", "upper", "upper", "lower", "interior"])
+            n = ax[2]
+            ci = num if end == "lower" else (n - 1 - num if end == "upper" else rng.randint(num, n - 1 - num))
+            x = node(ax, ci)
+            if not simple and rng.random() < 0.3:
+                x += rng.uniform(-0.4, 0.4) * hs[k] * (0.0 if (ci == 0 or ci == n - 1) else 1.0)
+            d[name] = x
+        parts.append(d)
+    case = dict(lattice=lat, sigma=sigma, kernel="gaussian" if simple else rng.choice(["gaussian", "covariant"]),
+                quantity="energy_density" if simple else rng.choice(QUANTITIES), add=False, particles=parts,
+                where="touch", family="edge-exact")
+    if not simple and rng.random() < 0.4:
+        case["add"] = rng.random() < 0.7
+        case["grid"] = _prefill(rng, axes)
+    return case
+
+
+def zero_edge_sweep(rng, full):
+    """lattices with an edge exactly at 0.0, every node count 10..26, the support ending exactly on the lower and on
+    the upper edge node, on each axis in turn (thorough) or on all three at once (quick)"""
+    out = []
+    los = ZERO_LO[:3] if full else [ZERO_LO[0], rng.choice(ZERO_LO[1:])]
+    for lo in los:
+        for n in range(10, 27):
+            for kind in ("upper0", "lower0"):
+                ax = [lo, 0.0, n] if kind == "upper0" else [0.0, -lo, n]
+                for num in ([1, 2] if full else [1 + (n % 2)]):
+                    for end in ("upper", "lower"):
+                        if full:
+                            for pos in range(3):
+                                axes = [[-1.5, 2.5, 5], [0.5, 2.5, 4], [-4.0, -1.0, 4]]
+                                axes[pos] = list(ax)
+                                nums = [0, 0, 0]
+                                nums[pos] = num
+                                ends = ["interior"] * 3
+                                ends[pos] = end
+                                out.append(gen_edge_case(rng, axes, nums, ends, simple=True))
+                        if not full or n <= 14:
+                            out.append(gen_edge_case(rng, [list(ax), list(ax), list(ax)], [num] * 3, [end] * 3, simple=True))
+    for c in out:
+        c["family"] = "zero-edge-sweep"
+    return out
+
+
+def gen_collapsed_case(rng):
+    """kernel much narrower than the spacing (num = 0 on every axis): every particle goes to its closest node;
+    several particles share a closest node, often on top of non-empty content (add=True)"""
+    axes = [gen_axis(rng, 7) if rng.random() < 0.5 else edge_axis(rng, rng.randint(3, 8)) for _ in range(3)]
+    hs = [(ax[1] - ax[0]) / (ax[2] - 1) for ax in axes]
+    lat = dict(axes=axes)
+    if rng.random() < 0.5:
+        lat["n_sigma"] = [rng.choice([0.5, 1, 2, 3]) for _ in range(3)]
+    ns = lat.get("n_sigma") or [3, 3, 3]
+    sigma = rng.choice([0.02, 0.05, 0.1, 0.15]) * min(h / s for h, s in zip(hs, ns))
+    nodes = [[rng.randint(0, ax[2] - 1) for ax in axes] for _ in range(rng.choice([1, 1, 2]))]
+    parts = []
+    for _ in range(rng.choice([2, 2, 3, 4])):
+        d = _blank_particle(rng)
+        nd = rng.choice(nodes)
+        for name, ax, h, ci in zip("xyz", axes, hs, nd):
+            x = node(ax, ci)
+            if rng.random() < 0.6:
+                off = rng.uniform(-0.4, 0.4) * h
+                if (ci == 0 and off < 0) or (ci == ax[2] - 1 and off > 0):
+                    off = -off
+                x += off
+            d[name] = x
+        parts.append(d)
+    case = dict(lattice=lat, sigma=sigma, kernel=rng.choice(["gaussian", "covariant"]), quantity=rng.choice(QUANTITIES),
+                add=rng.random() < 0.6, particles=parts, where="inside", family="collapsed-shared-node")
+    if case["add"] or rng.random() < 0.3:
+        case["grid"] = _prefill(rng, axes)
+    return case
+
+
 def canon(case):
     return json.dumps({k: case[k] for k in ("lattice", "sigma", "kernel", "quantity", "add", "particles")} |
                       {"grid": case.get("grid")}, sort_keys=True)
@@ -317,25 +461,26 @@ def kernel_defined(case):
     return True
 
 
-def oracle_check(case):
-    """Property C16 on the REAL code. Returns None or (key, what, detail)."""
+def oracle_all(case):
+    """Property C16 on the REAL code, every clause evaluated. Returns a list of (key, what, detail)."""
+    out = []
     real = run_real(case, record=False)
     V = real["V"]
     vals = real["values"]
     if real["status"] != "ok":
         if not kernel_defined(case):
-            return None          # raising is the accepted answer for an undefined kernel
-        return ("raises-on-valid-input", f"add_particle_data raised {real['status']} on a valid input", dict(status=real["status"]))
+            return []            # raising is the accepted answer for an undefined kernel
+        return [("raises-on-valid-input", f"add_particle_data raised {real['status']} on a valid input", dict(status=real["status"]))]
     old = case.get("grid")
-    base = sum(old) if (case["add"] and old is not None) else 0.0
+    base = math.fsum(old) if (case["add"] and old is not None) else 0.0
     dep = (math.fsum(real["grid"]) - base) * V
     want = math.fsum(vals)
     scale = max(1.0, sum(abs(v) for v in vals), abs(base) * V)
     inside = ref_support(case)
     if not kernel_defined(case):
-        return ("covariant-nan-kernel-dropped",
-                f"covariant kernel undefined ({case.get('nan_kernel')}) for a particle: the call neither raised nor "
-                f"deposited the quantity (deposited {dep!r}, quantities {vals})", dict(deposited=dep, expected=want))
+        return [("covariant-nan-kernel-dropped",
+                 f"covariant kernel undefined ({case.get('nan_kernel')}) for a particle: the call neither raised nor "
+                 f"deposited the quantity (deposited {dep!r}, quantities {vals})", dict(deposited=dep, expected=want))]
     if all(inside):
         if abs(dep - want) > 1e-7 * scale:
             key = "not-conserved-inside"
@@ -343,32 +488,70 @@ def oracle_check(case):
                 key = "not-conserved-inside/spacing-above-1e5"
             elif touches_edge(case):
                 key = "not-conserved-inside/support-ends-on-edge-node"
-            return (key, f"all supports inside but sum(grid)*cell_volume = {dep!r} != sum of quantities {want!r}",
-                    dict(deposited=dep, expected=want))
+            elif shares_node(case):
+                key = "not-conserved-inside/particles-share-closest-node"
+            out.append((key, f"all supports inside but sum(grid)*cell_volume - old content = {dep!r} != sum of quantities {want!r}",
+                        dict(deposited=dep, expected=want)))
     elif all(v >= 0 for v in vals):
         if dep > want + 1e-7 * scale or dep < -1e-7 * scale:
-            return ("clipped-exceeds", f"non-negative quantities, clipped support: deposited {dep!r} not within [0, {want!r}]",
-                    dict(deposited=dep, expected_max=want))
-    # add=False starts from zero / add=True accumulates: compare with a run on an empty lattice
+            out.append(("clipped-exceeds", f"non-negative quantities, clipped support: deposited {dep!r} not within [0, {want!r}]",
+                        dict(deposited=dep, expected_max=want)))
+    # add=False starts from zero / add=True accumulates: compare node by node with a run on an empty lattice
     if old is not None:
         fresh = run_real(dict(case, grid=None, add=False), record=False)
         exp = [(o if case["add"] else 0.0) + f for o, f in zip(old, fresh["grid"])]
         m = max(1.0, max(abs(e) for e in exp))
         for idx, (a, b) in enumerate(zip(real["grid"], exp)):
             if abs(a - b) > 1e-9 * m:
-                return ("add-accumulates" if case["add"] else "no-add-resets",
-                        f"add={case['add']}: node {idx} holds {a!r}, expected {b!r} (old content {'+' if case['add'] else 'ignored,'} fresh smear)",
-                        dict(node=idx, observed=a, expected=b))
-    # order independence
-    if len(case["particles"]) >= 2:
-        perm = dict(case, particles=list(reversed(case["particles"])))
-        r2 = run_real(perm, record=False)
+                out.append(("add-accumulates" if case["add"] else "no-add-resets",
+                            f"add={case['add']}: node {idx} holds {a!r}, expected {b!r} (old content {'+' if case['add'] else 'ignored,'} fresh smear)",
+                            dict(node=idx, observed=a, expected=b)))
+                break
+    # order independence: reversed, rotated by one, and (>= 3 particles) first two swapped
+    ps = case["particles"]
+    if len(ps) >= 2:
+        perms = [("reversed", list(reversed(ps))), ("rotated", ps[1:] + ps[:1])]
+        if len(ps) >= 3:
+            perms.append(("first two swapped", [ps[1], ps[0]] + ps[2:]))
         m = max(1.0, max(abs(e) for e in real["grid"]))
-        for idx, (a, b) in enumerate(zip(real["grid"], r2["grid"])):
-            if abs(a - b) > 1e-9 * m:
-                return ("order-dependent", f"reversing the particle list changes node {idx}: {a!r} vs {b!r}",
-                        dict(node=idx, a=a, b=b))
+        done = False
+        for name, pp in perms:
+            if pp == ps or done:
+                continue
+            r2 = run_real(dict(case, particles=pp), record=False)
+            for idx, (a, b) in enumerate(zip(real["grid"], r2["grid"])):
+                if abs(a - b) > 1e-9 * m:
+                    out.append(("order-dependent", f"particle list {name}: node {idx} changes from {a!r} to {b!r}",
+                                dict(node=idx, a=a, b=b, permutation=name)))
+                    done = True
+                    break
+    return out
+
+
+def oracle_check(case, key=None):
+    """first finding (or the one with the given key), None when the property holds on this input"""
+    for r in oracle_all(case):
+        if key is None or r[0] == key:
+            return r
     return None
+
+
+def closest_nodes(case):
+    lat = case["lattice"]
+    res = []
+    for d in case["particles"]:
+        idx = []
+        for name, ax in zip("xyz", lat["axes"]):
+            lo, hi, n = ax
+            h = (hi - lo) / (n - 1)
+            idx.append(min(max(int(math.floor((d[name] - lo) / h + 0.5)), 0), n - 1))
+        res.append(tuple(idx))
+    return res
+
+
+def shares_node(case):
+    c = closest_nodes(case)
+    return len(set(c)) < len(c)
 
 
 def touches_edge(case):
@@ -436,13 +619,21 @@ ASSUMPTIONS = [
 def correspond(ctx):
     rng = ctx.rng
     ctx.assumptions.extend(ASSUMPTIONS)
-    ctx.rule = ("random lattices (3..9 nodes per axis, up to 21 in a few cases; dyadic / decimal / irregular extents), "
+    ctx.rule = ("structured families: lattices with an edge exactly at 0.0 / negative / positive extents, 10..26 nodes, supports "
+                "ending exactly on the lower or upper edge node of each axis; kernels narrower than the spacing with several "
+                "particles on one closest node and add=True on non-empty content; plus "
+                "random lattices (3..9 nodes per axis, up to 21 in a few cases; dyadic / decimal / irregular extents), "
                 "0-4 particles placed well inside / support touching the edge node / near the edge / outside, both kernels, "
                 "all five quantities, several sigma and n_sigma, add on pre-filled lattices; non-trivial = at least one "
-                "particle whose temporary lattice has more than one node (num > 0 on some axis); distinct by canonical input")
+                "particle whose temporary lattice has more than one node (num > 0 on some axis), or particles sharing a closest "
+                "node, or add=True on non-empty content; distinct by canonical input")
     cases = []
     for c in corpus():
         cases.append(c)
+    ze = zero_edge_sweep(rng, False)
+    cases.extend(ze if ctx.thorough else rng.sample(ze, 24))
+    cases.extend(gen_edge_case(rng) for _ in range(ctx.n(30, 500)))
+    cases.extend(gen_collapsed_case(rng) for _ in range(ctx.n(24, 400)))
     n = ctx.n(120, 3000)
     for i in range(n):
         if i % 12 == 11:
@@ -488,11 +679,19 @@ def correspond(ctx):
     for c, real, how, out in zip(cases, reals, metas, outs[len(lin_lines):]):
         nums = real["nums"]
         tags = out.split(" ")[1] if out.startswith("ok ") else "err"
-        nontriv = bool(c["particles"]) and max(nums) > 0
+        nontriv = bool(c["particles"]) and (max(nums) > 0 or shares_node(c) or (c["add"] and c.get("grid") is not None))
         ctx.case(canon(c), nontriv, sample=dict(lattice=c["lattice"], sigma=c["sigma"], kernel=c["kernel"],
                                                 quantity=c["quantity"], add=c["add"], particles=c["particles"],
                                                 code_total=math.fsum(real["grid"]) * real["V"], model=out[:80]))
         ctx.count(f"{c['kernel']}/{c['quantity']}")
+        ctx.count("family/" + c.get("family", "random"))
+        if shares_node(c):
+            ctx.count("particles-share-closest-node")
+        for ax in c["lattice"]["axes"]:
+            if ax[1] == 0.0:
+                ctx.count("axis-upper-edge-0.0")
+            if ax[0] == 0.0:
+                ctx.count("axis-lower-edge-0.0")
         ctx.count(f"particles={len(c['particles'])}")
         ctx.count(f"num={max(nums)}")
         ctx.count("add" if c["add"] else ("reset-prefilled" if c.get("grid") else "reset"))
@@ -514,15 +713,17 @@ def search(ctx, budget_s):
     def one(case):
         nonlocal n
         n += 1
-        r = oracle_check(case)
+        rs = oracle_all(case)
         ctx.case(("oracle", canon(case)), bool(case["particles"]))
-        if r and r[0] not in found:
+        ctx.count("oracle/" + case.get("family", "random"))
+        for r in rs:
+            if r[0] in found:
+                continue
             found.add(r[0])
             small = shrink(case, r[0])
-            r2 = oracle_check(small) or r
-            ctx.violation(r2[0], r2[1], dict(input={k: v for k, v in small.items() if k != "lattice_obj"}, detail=r2[2],
-                                             how_to_replay="./check C16 --replay <this file>"))
-        return r
+            r2 = oracle_check(small, r[0]) or r
+            ctx.violation(r2[0], r2[1], dict(input=small, detail=r2[2], how_to_replay="./check C16 --replay <this file>"))
+        return rs
 
     for case in corpus():
         one(case)
@@ -531,13 +732,23 @@ def search(ctx, budget_s):
     one(edge_rounding_case())
     for case in sweep_cases(rng, ctx.thorough):
         one(case)
+    for case in zero_edge_sweep(rng, ctx.thorough):
+        one(case)
+    for _ in range(ctx.n(40, 400)):
+        one(gen_edge_case(rng))
+    for _ in range(ctx.n(30, 300)):
+        one(gen_collapsed_case(rng))
     k = 0
-    while time.time() - t0 < budget_s and n < (4000 if ctx.thorough else 400):
+    while time.time() - t0 < budget_s and n < (6000 if ctx.thorough else 900):
         k += 1
         if k % 5 == 0:
             one(gen_case(rng, where="touch", defects=False))
         elif k % 7 == 0:
             one(gen_large_scale(rng))
+        elif k % 7 == 1:
+            one(gen_edge_case(rng))
+        elif k % 7 == 2:
+            one(gen_collapsed_case(rng))
         else:
             one(gen_case(rng))
     ctx.cov["oracle_cases"] = n
@@ -583,15 +794,15 @@ def shrink(case, key):
         if len(ps) > 1:
             for i in range(len(ps)):
                 cand = dict(cur, particles=ps[:i] + ps[i + 1:])
-                r = oracle_check(cand)
-                if r and r[0] == key:
+                r = oracle_check(cand, key)
+                if r:
                     cur = cand
                     changed = True
                     break
         if not changed and cur.get("grid") is not None and key not in ("add-accumulates", "no-add-resets"):
             cand = dict(cur, grid=None)
-            r = oracle_check(cand)
-            if r and r[0] == key:
+            r = oracle_check(cand, key)
+            if r:
                 cur = cand
                 changed = True
     return cur
